@@ -106,6 +106,13 @@ def run(chk):
         deep = b"a{" * k + b" x y; " + b"}" * k + b"\n"
         dcases.append((k, Case([('reg', 'str', 'keep', 0, 'd0'), ('load', b'keep v1; o { p q }\n'), ('dump',), ('load', deep), ('dump',), ('load', b"a{" * k), ('dump',)], "objects nested %d deep" % k)))
         chk.hist("load:nesting depth")
+    # many objects NEXT to each other are not deep: 70 siblings at top level, and 70 siblings inside 63 levels (the depth counter must
+    # go down again when an object is closed)
+    flat = b"".join(b"o%d { a b }\n" % i for i in range(70))
+    inner = b"a{" * 63 + b"".join(b" q%d { x y }; " % i for i in range(70)) + b"}" * 63 + b"\n"
+    for lbl, txt in ((-70, flat), (-63, inner)):
+        dcases.append((lbl, Case([('reg', 'str', 'keep', 0, 'd0'), ('load', b'keep v1; o { p q }\n'), ('dump',), ('load', txt), ('dump',), ('load', txt[:len(txt) // 2]), ('dump',)], "seventy sibling objects (%s)" % ("top level" if lbl == -70 else "63 levels down"))))
+        chk.hist("load:sibling objects")
     # (the extracted model is not tail recursive over the input text: the 400 KB file is judged by the oracle alone)
     dm_ = iter(run_model(drv, [c for k_, c in dcases if k_ <= 20000]))
     dmodel = [next(dm_) if k_ <= 20000 else None for k_, c in dcases]
@@ -122,7 +129,7 @@ def run(chk):
                 why = failed_load_oracle(case, segs)
                 ok = [x for sg in segs for x in sg if x.startswith("LOAD")]
                 if why is None and len(ok) >= 2 and (ok[1] == "LOAD OK") != (k <= 64):
-                    why = "objects nested %d deep: the load %s (the limit is 64)" % (k, "succeeded" if ok[1] == "LOAD OK" else "was refused")
+                    why = ("objects nested %d deep: the load %s (the limit is 64)" % (k, "succeeded" if ok[1] == "LOAD OK" else "was refused")) if k > 0 else "a file with seventy sibling objects, none nested more than 64 deep, was refused" 
         if why is None and m is not None and lines != m:
             why = "src/config.c and the Coq model disagree on a file with objects nested %d deep" % k; found = False
         if why:
